@@ -260,9 +260,9 @@ func VerifC15RuntimeCheck() {
 	var got *c15Dst
 	wf := NewWorkflow[int, int]()
 	wf.AddLambdaNode("s", InvokableLambda(func(ctx context.Context, in int) (c15Src, error) {
-		return c15Src{I: iv, A: 1, M: map[string]any{"k": iv}}, nil
+		return c15Src{I: iv, A: 1, M: map[string]any{"k": iv, "j": "t"}}, nil
 	})).AddInput(START)
-	sel := vchoose("mapping", 4)
+	sel := vchoose("mapping", 5)
 	var ms []*FieldMapping
 	switch sel {
 	case 0:
@@ -273,6 +273,8 @@ func VerifC15RuntimeCheck() {
 		ms = []*FieldMapping{MapFieldPaths(FieldPath{"I", "X"}, FieldPath{"F"})}
 	case 3: // a value taken from a map[string]any: its type is only known at run time as well
 		ms = []*FieldMapping{MapFieldPaths(FieldPath{"M", "k"}, FieldPath{"F"})}
+	case 4: // two run-time-checked mappings with different target types on one connection
+		ms = []*FieldMapping{MapFieldPaths(FieldPath{"M", "k"}, FieldPath{"F"}), MapFieldPaths(FieldPath{"M", "j"}, FieldPath{"G"})}
 	}
 	wf.AddLambdaNode("t", InvokableLambda(func(ctx context.Context, in c15Dst) (int, error) { got = &in; return 1, nil })).AddInput("s", ms...)
 	wf.End().AddInput("t")
@@ -301,6 +303,9 @@ func VerifC15RuntimeCheck() {
 	ok := (sel != 2 && dyn == 0) || (sel == 2 && dyn == 3)
 	if ok {
 		vassert(rerr == nil && got != nil && got.F == x, "a dynamic value of the right type is mapped, in non-streaming and streaming execution")
+		if sel == 4 {
+			vassert(got.G == "t", "each run-time-checked mapping is checked against its own target type")
+		}
 	} else {
 		vassert(rerr != nil, "a dynamic value that does not fit the target is reported as an error")
 		vassert(!strings.Contains(rerr.Error(), "panic"), "a mapping that can only be checked at run time yields an ordinary error, never a panic")
